@@ -11,7 +11,7 @@ package main
 //	                        for _, x := range s.F { clone.F = append(clone.F, &T{…}) } ; return &clone
 //	cloneSources            make + range + append(cloneSource(s))
 //	cloneSource             nil check ; type switch with `return s.Clone()` / `return &T{…}` ; panic
-//	Measurement.Clone       var x *T ; if m.F != nil && m.F.G != nil { x = &T{…} } ; return &Measurement{…}
+//	Measurement.Clone       var x *T ; if m.F != nil && m.F.G != nil { x = &T{…} } ; return &Measurement{…}   (or the return alone)
 //	CloneRegexLiteral       fixed body text
 //	CloneExpr               nil check ; type switch: optional `a := make([]E, len(x.F)) ; for i, v := range x.F { a[i] = CloneExpr(v) }` ; return &T{…}
 //
@@ -449,6 +449,15 @@ func (g *cloneGen) measurementClone() {
 	fd := g.p.fn(R)
 	recv := fd.Recv.List[0].Names[0].Name
 	body := fd.Body.List
+	if len(body) == 1 {
+		// the repaired shape: a single `return &Measurement{…, Regex: CloneRegexLiteral(m.Regex), …}`
+		ret, ok := body[0].(*ast.ReturnStmt)
+		if !ok || len(ret.Results) != 1 {
+			fail("%s: unknown body shape", R)
+		}
+		g.compositeChecked(R, ret.Results[0], recv, nil)
+		return
+	}
 	if len(body) != 3 {
 		fail("%s: unknown body shape", R)
 	}
